@@ -7,6 +7,7 @@ import (
 	"os"
 	"os/exec"
 	"strings"
+	"time"
 
 	j "github.com/mfcochauxlaberge/jsonapi"
 
@@ -15,7 +16,7 @@ import (
 
 // C11 — marshaling is deterministic and depends only on content.
 
-var c11BaseNames = []string{"soft resource + included", "wrapped resource + included", "Resources(mixed)", "SoftCollection", "WrapperCollection", "errors", "identifiers + meta + links", "weird names", "wide type, long unsorted selection", "Resources(mixed), no selection entry for a member's type", "soft resource + 45 included, 4 processors"}
+var c11BaseNames = []string{"soft resource + included", "wrapped resource + included", "Resources(mixed)", "SoftCollection", "WrapperCollection", "errors", "identifiers + meta + links", "weird names", "wide type, long unsorted selection", "Resources(mixed), no selection entry for a member's type", "soft resource + 45 included, 4 processors", "soft resource whose values sit behind pointers (nanosecond times, byte strings)", "wrapped resource whose values sit behind pointers"}
 
 // a type with more fields than any "short list" fast path, selected in reverse order
 var c11Wide = func() TypeD {
@@ -26,6 +27,11 @@ var c11Wide = func() TypeD {
 	d.Rels = []RelD{{"r1", true, "u", ""}, {"r2", false, "u", ""}}
 	return d
 }()
+
+// values a marshaler could be tempted to normalise in place: times with nanoseconds and a zone,
+// byte strings, all also behind pointers
+var c11Vals = TypeD{Name: "v", Attrs: []AttrD{{"at", Kind{j.AttrTypeTime, false}}, {"pat", Kind{j.AttrTypeTime, true}}, {"y", Kind{j.AttrTypeBytes, false}}, {"py", Kind{j.AttrTypeBytes, true}}, {"ps", Kind{j.AttrTypeString, true}}},
+	Rels: []RelD{{"many", false, "u", ""}}}
 
 // c11Params are the order-irrelevant parts of a base document.
 type c11Params struct {
@@ -42,7 +48,7 @@ func c11Default() c11Params {
 func c11Base(i int, p c11Params) *DocCase {
 	c := &DocCase{}
 	softT := i != 1 && i != 4
-	c.Schema = BuildSchema([]TypeD{docT, docU, docQ, c11Wide}, []bool{softT, i%2 == 0, true, true})
+	c.Schema = BuildSchema([]TypeD{docT, docU, docQ, c11Wide, c11Vals}, []bool{softT, i%2 == 0, true, true, i != 12})
 	mkT := func(soft bool, id string, v int) j.Resource {
 		r := docRes(docT, soft, id, v)
 		many := append([]string{}, p.many...)
@@ -121,13 +127,28 @@ func c11Base(i int, p c11Params) *DocCase {
 		doc.Data = r
 		doc.RelData["w"] = []string{"r2", "r1"}
 		frag = []string{"w", "w1"}
+	case 11, 12:
+		r := c11Vals.NewRes(i == 11)
+		r.Set("id", "v1")
+		tm := time.Date(2021, 6, 1, 1, 2, 3, 123456789, zPlus)
+		r.Set("at", tm)
+		r.Set("pat", &tm)
+		r.Set("y", []byte{3, 1, 2})
+		py := []byte{9, 8}
+		r.Set("py", &py)
+		r.Set("ps", Ptr(" padded "))
+		r.Set("many", append([]string{}, p.many...))
+		doc.Data = r
+		doc.RelData["v"] = []string{"many"}
+		frag = []string{"v", "v1"}
 	case 7:
 		doc.Data = docRes(docQ, true, weirdID, 0)
 		doc.Included = []j.Resource{docRes(docQ, true, "w2", 1)}
 		frag = []string{docQ.Name, weirdID}
 	}
 	fields := map[string][]string{"t": append([]string{}, p.selT...), "u": {"back", "b"}, docQ.Name: {"s"},
-		"w": {"r2", "r1", "f9", "f8", "f7", "f6", "f5", "f4", "f3", "f2", "f1", "f0"}}
+		"w": {"r2", "r1", "f9", "f8", "f7", "f6", "f5", "f4", "f3", "f2", "f1", "f0"},
+		"v": {"py", "many", "pat", "y", "at", "ps"}}
 	if i == 9 {
 		delete(fields, "u")
 		doc.Included = doc.Included[:0]
@@ -141,7 +162,10 @@ func c11Base(i int, p c11Params) *DocCase {
 	c.Doc = doc
 	c.URL = &j.URL{Fragments: frag, ResType: frag[0], IsCol: len(frag) == 1,
 		Params: &j.Params{Fields: fields, RelData: map[string][]string{}, SortingRules: []string{"s", "-n", "id"}, Include: [][]j.Rel{},
-			Page: map[string]any{"size": 10, "number": 2, "cursor": "c<1>", "limit": 5, "after": "x", "Zed": true}, FilterLabel: "lbl"}}
+			Page: map[string]any{"size": 10, "number": 2, "cursor": "c<1>", "limit": 5, "after": "x", "Zed": true}, FilterLabel: "lbl",
+			// operands in an order that is neither sorted nor reversed
+			Filter: &j.Filter{Op: "and", Val: []*j.Filter{{Field: "size", Op: ">", Val: 3.0}, {Field: "tag", Op: "=", Val: "x"},
+				{Op: "or", Val: []*j.Filter{{Field: "name", Op: "=", Val: "n"}, {Field: "age", Op: "<", Val: 9.0}, {Field: "city", Op: "=", Val: "c"}}}, {Field: "name", Op: "=", Val: "n"}}}}}
 	c.Desc = c11BaseNames[i]
 	return c
 }
@@ -194,7 +218,8 @@ func c11Readable(c *DocCase) string {
 		sortStrings(l)
 		fmt.Fprintf(&b, " fields[%s]=%v", t, l)
 	}
-	fmt.Fprintf(&b, " sort=%v page=%v filter=%q", u.Params.SortingRules, u.Params.Page, u.Params.FilterLabel)
+	fj, _ := json.Marshal(u.Params.Filter)
+	fmt.Fprintf(&b, " sort=%v page=%v filter=%q %s", u.Params.SortingRules, u.Params.Page, u.Params.FilterLabel, fj)
 	return b.String()
 }
 
@@ -428,7 +453,7 @@ func init() {
 	Register(&Prop{
 		Post: c11Conformance,
 		ID: "C11",
-		Rule: "Engine A over 11 base (document, URL) pairs, every URL with size, number and four custom page[...] keys (soft / wrapped single resource with 3 included of mixed implementations, Resources / SoftCollection / WrapperCollection, errors with links/source/meta maps, identifiers + nested meta + links map, names needing escapes, a 12-field type with a long selection given in reverse order, a mixed collection one of whose member types has no selection entry, a document with 45 included resources marshaled on 4 processors): (i) map schedules: the iteration order of EVERY instrumented map-range loop instance met while marshaling (all n! orders for n <= 4 keys, reversal/rotations/adjacent swaps above) is an environment choice; all executions with <= 1 (thorough 2) deviating loop instances, plus the uniform reversed and rotated schedules; (ii) all orders of a 3-id to-many list, of a 4-name field selection, of the relationship-data list and of a 3-element included list with distinct ids; (iii) three marshals in a row on the same objects, then a fourth after every order-irrelevant part was reversed in place; (iv) each base marshaled before and after documents whose types have the same names and other fields. Oracle: byte-identical output everywhere; everything later readable from the resources and the URL (modulo the three exempted orders) unchanged. Non-trivial = execution with at least one deviating loop / a non-default permutation",
+		Rule: "Engine A over 13 base (document, URL) pairs, every URL with size, number and four custom page[...] keys and a nested filter of unsorted operands (soft / wrapped single resource with 3 included of mixed implementations, Resources / SoftCollection / WrapperCollection, errors with links/source/meta maps, identifiers + nested meta + links map, names needing escapes, a 12-field type with a long selection given in reverse order, a mixed collection one of whose member types has no selection entry, a document with 45 included resources marshaled on 4 processors, soft and wrapped resources whose values sit behind pointers: zoned nanosecond times, byte strings): (i) map schedules: the iteration order of EVERY instrumented map-range loop instance met while marshaling (all n! orders for n <= 4 keys, reversal/rotations/adjacent swaps above) is an environment choice; all executions with <= 1 (thorough 2) deviating loop instances, plus the uniform reversed and rotated schedules; (ii) all orders of a 3-id to-many list, of a 4-name field selection, of the relationship-data list and of a 3-element included list with distinct ids; (iii) three marshals in a row on the same objects, then a fourth after every order-irrelevant part was reversed in place; (iv) each base marshaled before and after documents whose types have the same names and other fields. Oracle: byte-identical output everywhere; everything later readable from the resources and the URL (modulo the three exempted orders) unchanged. Non-trivial = execution with at least one deviating loop / a non-default permutation",
 		Assumptions: []string{"the repository suite passing under the instrumented build (sorted, reversed, rotated schedules) binds the rewritten loops to the original ones"},
 		Harnesses: []Harness{{Name: "C11/marshal", Body: c11Body, Dev: func() int {
 			if Thorough() {
